@@ -358,6 +358,11 @@ func (h *Sources) Accept(hold, infer bool, err error) {
 	// returned along with an error (generally, a CtrlC/CtrlD keypress).
 	if err == nil {
 		h.Write(infer)
+
+		// The sources may have grown: the positions counted from the newest
+		// entry now designate other lines than the one that was accepted, which
+		// must not be saved as a state of one of them once the command is done.
+		h.skip = true
 	}
 }
 
